@@ -166,10 +166,19 @@ Print Assumptions C03_force_option_noop.
    both read from the source, so a parameter bound to the wrong driver field is seen), builds the
    model's serialize: for every version, both flags, every message-id and payload, the raw copy and
    the framed bytes are the model's. *)
-From Scrapli Require Import DecideLang GeneratedSkel NetconfSrc.
+From Scrapli Require Import DecideLang GeneratedSkel SerializeSrc.
 Theorem C03_serialize_is_source : forall v force xh id payload,
   exists e_raw e_framed, ser_run v force xh = Some (e_raw, e_framed)
     /\ denote (rpc_xml id payload) e_raw = ser_raw (serialize v force xh id payload)
     /\ denote (rpc_xml id payload) e_framed = ser_framed (serialize v force xh id payload).
 Proof. exact serialize_is_source. Qed.
 Print Assumptions C03_serialize_is_source.
+
+(* every test that the translated functions of this property make is one the environments of their
+   ties were written for: a test that is new in the source breaks this (an unknown equality would
+   otherwise evaluate to false without notice) *)
+From Scrapli Require Import DecideLang GeneratedSkel SerializeSrc.
+Theorem C03_source_tests_known :
+  tests_known serialize_code serialize_known = true.
+Proof. exact serialize_tests_known. Qed.
+Print Assumptions C03_source_tests_known.
